@@ -4,7 +4,10 @@ import (
 	"encoding/json"
 	"math/rand"
 
+	"fmt"
+
 	"github.com/beevik/etree"
+	saml2 "github.com/russellhaering/gosaml2"
 	"github.com/russellhaering/gosaml2/types"
 
 	"verifharness/idp"
@@ -144,11 +147,14 @@ func (Logout) Run(c *orch.Case) *orch.Outcome {
 	}
 	doc := idp.Serialize(root, lay, rng)
 	enc := idp.Encode(doc, c.Seed%2 == 0)
-	sp := w.NewSP()
-	sp.SkipSignatureValidation = cfg.Skip
-	if !cfg.IssuerCfg {
-		sp.IdentityProviderIssuer = ""
-	}
+	sp := spFor(c.Seed/2, fmt.Sprint("logout", cfg.Skip, cfg.IssuerCfg), func() *saml2.SAMLServiceProvider {
+		sp := w.NewSP()
+		sp.SkipSignatureValidation = cfg.Skip
+		if !cfg.IssuerCfg {
+			sp.IdentityProviderIssuer = ""
+		}
+		return sp
+	})
 	o := &lObs{Fields: "none"}
 	iss := func(i *types.Issuer) string {
 		if i == nil {
